@@ -218,6 +218,10 @@ func (d *Driver) runShard(shard, nw int, m *Merged, mu *sync.Mutex) {
 			v.Count++
 		} else if abort != "" {
 			m.Inconclusive[abort]++
+			if l, _ := m.Extra["aborted_cases"].([]string); len(l) < 20 {
+				at, _ := json.Marshal(open.At)
+				m.Extra["aborted_cases"] = append(l, abort+": "+open.Case+" at "+truncate(string(at), 300))
+			}
 		} else {
 			kind, msg := classifyDeath(string(stderrB))
 			if kind == "memory" {
